@@ -77,11 +77,57 @@ def flushburst_case(r):
     return g.ops
 
 
+def reconnect_case(r):
+    """An address that comes back: connect, disconnect (from either side, sometimes followed by the application's
+    drop() while the old entry lingers), connect again from the same address within the linger, keep that
+    connection alive past the old entry's timers, let another address connect, and reconnect once more."""
+    g = Gen(r)
+    scfg = "2000000 2000000 1448 100000 %d 5000 20000" % r.randrange(2)
+    g.ops.append("srvnew %d %d %d %s 0" % (r.choice([1, 2, 4096]), r.choice([2, 32]), r.randrange(2), scfg))
+    g.ops.append("peer 0")
+    g.ops.append("peer 1")
+    def run(ms, clients, dts=(100, 500, 1000)):
+        end = g.now + ms
+        while g.now < end:
+            now = g.tick(dts)
+            for j in clients:
+                g.ops.append("clistep %d %d" % (j, now))
+                g.ops.append("pfwd %d 0 0 1" % j)
+            for _ in clients:
+                g.nonce()
+            g.nonce()
+            g.ops.append("srvstep %d" % now)
+            for j in (0, 1):
+                g.ops.append("pfwd %d 0 0 1" % j)
+    def connect(j):
+        g.nonce()
+        g.ops.append("clinew %d %d 2000000 2000000 1448 100000 1 %d 20000 %d" % (j, j, r.choice([1000, 5000]), g.now))
+    connect(0)
+    run(r.choice([500, 2000]), [0])
+    for cycle in range(2):
+        who = r.choice(["cli", "cli", "srv"])
+        g.ops.append("clidisc 0 %d" % r.randrange(2) if who == "cli" else "srvdisc 0 %d" % r.randrange(2))
+        run(r.choice([500, 1500, 3000]), [0])
+        if r.random() < 0.6:
+            g.ops.append("srvdrop 0")
+        run(r.choice([0, 1000, 3000]), [0])
+        connect(0)                                  # the same address again, within the 20 s linger
+        run(r.choice([22000, 26000]), [0], dts=(500, 1000, 2000))
+        if cycle == 0:
+            connect(1)                              # another address, after the old entry's timers have fired
+            run(3000, [0, 1])
+    run(5000, [0, 1])
+    return g.ops
+
+
 def lifecycle_case(r, max_clients=3):
     """A server and 1-3 real clients behind relay peers: handshake under loss, data both ways, disconnects from
     either side (flush / now), drops, timeouts, all API calls at any point."""
-    if r.random() < 0.25:
+    k0 = r.random()
+    if k0 < 0.25:
         return flushburst_case(r)
+    if k0 < 0.37:
+        return reconnect_case(r)
     g = Gen(r)
     scfg, sinfo = ec(r)
     g.ops.append("srvnew %d %d %d %s 0" % (r.choice([4096, 4, 2]), r.choice([32, 2, 1]), r.randrange(2), scfg))
@@ -282,7 +328,11 @@ def amplify_case(r):
         now = g.tick((0, 10, 500, 2000, 2100))
         if storm is not None:
             for _ in range(r.choice([10, 20, 30])):
-                g.ops.append("psend %d hsack %d" % (storm, r.randrange(U32)))
+                g.ops.append(r.choice(["psend %d hsack %d" % (storm, r.randrange(U32)),
+                                       "psend %d hsack %d" % (storm, r.randrange(U32)),
+                                       "psend %d sync %s %s" % (storm, r.choice(["-", "5"]), r.choice(["-", "6"])),
+                                       "psend %d data %d 0 0" % (storm, r.randrange(U32)),
+                                       "psend %d acks 1 2 0" % storm]))
         for _ in range(r.choice([1, 1, 2, 3])):
             k = r.randrange(4)
             a = r.random()
@@ -320,10 +370,11 @@ def idle_keepalive_case(r):
     relay, no application data, steps 0.5 to 3 s apart for several minutes: nobody may time out."""
     g = Gen(r)
     kai = r.choice([1000, 5000])
-    g.ops.append("srvnew 4096 32 %d 2000000 2000000 1448 100000 1 %d 20000 0" % (r.randrange(2), kai))
+    ska, cka = r.choice([(1, 1), (1, 1), (1, 0), (0, 1)])      # keepalive on both ends, or on one only
+    g.ops.append("srvnew 4096 32 %d 2000000 2000000 1448 100000 %d %d 20000 0" % (r.randrange(2), ska, kai))
     g.ops.append("peer 0")
     g.nonce()
-    g.ops.append("clinew 0 0 2000000 2000000 1448 100000 1 %d 20000 0" % r.choice([1000, 5000]))
+    g.ops.append("clinew 0 0 2000000 2000000 1448 100000 %d %d 20000 0" % (cka, r.choice([1000, 5000])))
     for t in range(r.choice([90, 150])):
         now = g.tick((500, 1000, 2000, 3000))
         g.ops.append("clistep 0 %d" % now)
